@@ -216,7 +216,8 @@ class FortranEngine:
             max_iter,
             tol,
             offset,
-            [self.names.index(x) for x in self.check],
+            # Add 1 to go from zero-based (Python) to one-based (Fortran) indexing
+            [self.names.index(x) + 1 for x in self.check],
             self._FAILURE_OPTIONS[failures],
             self._ERROR_OPTIONS[errors],
         )
@@ -424,7 +425,8 @@ class FortranEngine:
             max_iter,
             tol,
             offset,
-            [self.names.index(x) for x in self.check],
+            # Add 1 to go from zero-based (Python) to one-based (Fortran) indexing
+            [self.names.index(x) + 1 for x in self.check],
             self._ERROR_OPTIONS[errors],
         )
 
